@@ -177,6 +177,7 @@ def c08(tapes, params):
     w = EnipWorld(tapes, params, count_calls=True)
     g = w.gen
     w.gen_tags(ntags=g.between(2, 4, 'ntags'), maxlen=params.get('maxlen', 30), min_storages=2)
+    w.net.reuse_ports = lambda: w.sch.chance(1, 2, 'reuseport')
     w.start_server()
     tags = sorted(w.model.tags.values(), key=lambda t: t.name)
     sids = []
@@ -338,6 +339,8 @@ def c08(tapes, params):
                 from ref.model import convert
                 for sid in changed:
                     t = w.model.stype[sid]
+                    if real[sid] is None or len(real[sid]) != len(w.model.store[sid]):
+                        return None         # tags are fixed-length arrays: no frame may resize one
                     try:
                         w.model.store[sid] = [convert(t, v) for v in real[sid]]
                     except Exception:       # noqa: BLE001
@@ -439,6 +442,16 @@ def c08(tapes, params):
                 stats['explained_changes'] += 1
             if not rest:
                 a.orig_acc = []         # no partial frame is pending on this connection
+            if a.stream and g.chance(1, 3, 'hangup'):
+                # hang up with a partial frame pending on the server side (FIN or RST); the next attack
+                # comes over a new connection, possibly from the same source port
+                if g.draw(2, 'hangrst'):
+                    a.sock.tx.reset()
+                    a.rst = True
+                a.close()
+                a.eof = True
+                w.net.fired('HANGUP_MID_FRAME')
+                w.sched.sleep(0.3)
             if g.chance(1, 3, 'probe?'):
                 probe('after attack %d (%s, %s)' % (n, what, how))
         probe('at the end')
